@@ -16,10 +16,12 @@ V2a == Vrf("v2", "65000:102", 102, {"rt2", "rt3"}, {"rt2"})
 V2b == Vrf("v2", "65000:102", 112, {"rt1"}, {"rt1", "rt2", "rt3"})
 VrfPoolAll == {V1a, V1b, V2a, V2b}
 
-(* VPN routes of N2: two NLRIs (distinct RD and prefix) *)
-Slot(k) == IF k = "k1" THEN [rd |-> "65002:1", x |-> "x1", label |-> 201]
-                       ELSE [rd |-> "65002:2", x |-> "x2", label |-> 202]
-Slots == {"k1", "k2"}
+(* VPN routes of N2: k1, k2 have distinct RD and prefix; k3 has the RD of k2 and the IP prefix of
+   k1 (the same destination reached through another PE) *)
+Slot(k) == CASE k = "k1" -> [rd |-> "65002:1", x |-> "x1", label |-> 201]
+             [] k = "k2" -> [rd |-> "65002:2", x |-> "x2", label |-> 202]
+             [] k = "k3" -> [rd |-> "65002:2", x |-> "x1", label |-> 203]
+Slots == {"k1", "k2", "k3"}
 VRoute(k, rts, v) == [rd |-> Slot(k).rd, x |-> Slot(k).x, label |-> Slot(k).label, rts |-> rts, v |-> v]
 
 RtSetsAll == (SUBSET RTs) \cup {S \cup {"nt1"} : S \in SUBSET RTs}
